@@ -308,6 +308,7 @@ func runC11(c *an.Ctx) {
 			accs := stakeAccumulators(fn, k, dep, wd)
 			okAll := true
 			var residuals []string
+			var unexpl []an.Lin
 			for _, p := range paths {
 				delta := an.LinConst(0)
 				for _, f := range posFields {
@@ -343,10 +344,24 @@ func runC11(c *an.Ctx) {
 					continue
 				}
 				okAll = false
+				unexpl = append(unexpl, res)
 				residuals = append(residuals, "UNEXPLAINED "+rs)
 			}
 			sort.Strings(residuals)
-			c.Check(okAll, key, rule, c.P.Rel(k.Pos()), fmt.Sprintf("%d paths; residuals: %s", len(paths), strings.Join(residuals, "; ")))
+			detail := fmt.Sprintf("%d paths; residuals: %s", len(paths), strings.Join(residuals, "; "))
+			if !okAll {
+				// a private helper whose only imbalance is linear in its own parameters (e.g. "takes pos out of the
+				// record"): the balance is owed by its callers, at every call, for the arguments passed
+				if sum, isSum := helperSummary(fn, unexpl, len(paths)); isSum {
+					if why := callersBalance(fn, sum, fns, dep, wd); why == "" {
+						c.Hold(key, rule, c.P.Rel(k.Pos()), detail+"; balanced by every caller of this private helper for the arguments passed ("+residualKey(sum)+")")
+						continue
+					} else {
+						detail += "; as a helper summary (" + residualKey(sum) + "): " + why
+					}
+				}
+			}
+			c.Check(okAll, key, rule, c.P.Rel(k.Pos()), detail)
 		}
 	}
 	c.RequireMin("sites persisting an AuthorizeInfo record", nSites, 13)
@@ -408,11 +423,13 @@ func runC11(c *an.Ctx) {
 		}}
 		// the record update and the accumulation of the payout amount happen only on the covered edge
 		accAdds := map[ssa.Instruction]bool{}
-		for _, k := range an.CallsTo(fn, putAI) {
-			for ph := range stakeAccumulators(fn, k, dep, wd) {
-				for _, e := range ph.Edges {
-					if b, isB := e.(*ssa.BinOp); isB && b.Op == token.ADD {
-						accAdds[b] = true
+		for _, k0 := range an.CallsToReach(fn, putAI) {
+			for _, k := range rootCalls(fn, k0) {
+				for ph := range stakeAccumulators(fn, k, dep, wd) {
+					for _, e := range ph.Edges {
+						if b, isB := e.(*ssa.BinOp); isB && b.Op == token.ADD {
+							accAdds[b] = true
+						}
 					}
 				}
 			}
@@ -420,6 +437,116 @@ func runC11(c *an.Ctx) {
 		v := an.Guarded(c.P, fn, []*an.Guard{g}, func(in ssa.Instruction) bool { return isCallTo(in, putAI) || accAdds[in] }, false)
 		c.Check(v.Holds && v.GuardSites == 1 && v.ActionSites >= 2 && len(accAdds) >= 1, "guard|Withdraw|unfrozen-sufficient", "a record is reduced and its amount added to the payout only when the requested amount is covered by the record's unfrozen pos", c.P.Rel(fn.Pos()), v.Witness)
 	}
+}
+
+// helperSummary: fn is a private function and on every path through the store the imbalance is the same linear
+// expression over fn's own integer parameters.
+func helperSummary(fn *ssa.Function, unexpl []an.Lin, nPaths int) (an.Lin, bool) {
+	if fn.Object() == nil || fn.Object().Exported() || len(unexpl) == 0 || len(unexpl) != nPaths {
+		return an.Lin{}, false
+	}
+	sum := unexpl[0]
+	for _, l := range unexpl[1:] {
+		if !l.Add(sum, -1).IsZero() {
+			return an.Lin{}, false
+		}
+	}
+	if sum.C != 0 {
+		return an.Lin{}, false
+	}
+	params := map[string]bool{}
+	for _, p := range fn.Params {
+		if b, ok := p.Type().Underlying().(*types.Basic); ok && b.Info()&types.IsInteger != 0 {
+			params[p.Name()] = true
+		}
+	}
+	for s := range sum.Term {
+		if !params[s] {
+			return an.Lin{}, false
+		}
+	}
+	return sum, true
+}
+
+// callersBalance: at every static call of the helper, on every path from the call to the end of the iteration (or
+// of the function), the recorded total stake changes by the helper's imbalance evaluated for the arguments passed.
+// Returns "" if so, otherwise what is wrong.
+func callersBalance(helper *ssa.Function, sum an.Lin, fns []*ssa.Function, dep, wd *types.Func) string {
+	n := 0
+	for _, g := range fns {
+		for _, k := range an.Calls(g) {
+			call, isCall := k.(*ssa.Call)
+			if !isCall || call.Call.StaticCallee() != helper {
+				continue
+			}
+			n++
+			rg := &an.LinRegion{Fn: g, Start: call, End: call}
+			paths, tooMany, bad := rg.Paths(512)
+			if tooMany || bad != "" || len(paths) == 0 {
+				return fmt.Sprintf("call in %s: paths=%d tooMany=%v %s", an.FuncName(g), len(paths), tooMany, bad)
+			}
+			accs := stakeAccumulators(g, call, dep, wd)
+			for _, p := range paths {
+				want := an.LinConst(0)
+				for i, fp := range helper.Params {
+					if coef, ok := sum.Term[fp.Name()]; ok && i < len(call.Call.Args) {
+						want = want.Add(p.Val(call.Call.Args[i]), coef)
+					}
+				}
+				credit := an.LinConst(0)
+				for _, kk := range an.CallsTo(g, dep) {
+					if p.Has(kk) {
+						credit = credit.Add(p.Val(kk.Common().Args[3]), 1)
+					}
+				}
+				for _, kk := range an.CallsTo(g, wd) {
+					if p.Has(kk) {
+						credit = credit.Add(p.Val(kk.Common().Args[3]), -1)
+					}
+				}
+				for ph, sign := range accs {
+					if lv := p.LatchValue(ph); lv != nil {
+						credit = credit.Add(p.Val(lv).Add(an.LinSym(linSymName(ph)), -1), sign)
+					}
+				}
+				if r := want.Add(credit, -1); !r.IsZero() {
+					return fmt.Sprintf("the call in %s leaves %s unbalanced", an.FuncName(g), residualKey(r))
+				}
+			}
+		}
+	}
+	if n == 0 {
+		return "the helper has no static caller"
+	}
+	return ""
+}
+
+// rootCalls maps an instruction found in a helper entered from fn to the call(s) in fn through which it is reached
+// (the instruction itself when it already lies in fn).
+func rootCalls(fn *ssa.Function, in ssa.Instruction) []ssa.CallInstruction {
+	if in.Parent() == fn {
+		if k, ok := in.(ssa.CallInstruction); ok {
+			return []ssa.CallInstruction{k}
+		}
+		return nil
+	}
+	var out []ssa.CallInstruction
+	for _, k := range an.Calls(fn) {
+		callee := k.Common().StaticCallee()
+		if callee == nil {
+			continue
+		}
+		for _, h := range an.InlineReach(fn) {
+			if h == callee {
+				for _, hh := range an.InlineReach(callee) {
+					if hh == in.Parent() {
+						out = append(out, k)
+					}
+				}
+			}
+		}
+	}
+	return out
 }
 
 func linSymName(v ssa.Value) string {
